@@ -169,6 +169,12 @@ def build(feature_set=("std",)):
             explicit.setdefault(st["name"], {})[i["trait"]] = "[" + "; ".join(bs) + "]"
     env = []
     env.append('mkadt "(tuple)" 4 [TParam 0; TParam 1; TParam 2; TParam 3] None None')
+    # the std handles the wrapper types are built from (facts about std, not about cglue): Arc<T> is Send/Sync iff T: Send + Sync;
+    # Box<T>, Box<[T]>, Vec<T> own a T: structural
+    env.append('mkadt "std::Arc" 1 [] (Some [(0, true, true)]) (Some [(0, true, true)])')
+    env.append('mkadt "std::Box" 1 [TParam 0] None None')
+    env.append('mkadt "std::BoxSlice" 1 [TParam 0] None None')
+    env.append('mkadt "std::Vec" 1 [TParam 0] None None')
     for name, a in sorted(cx.adts.items()):
         params = [p["name"] for p in a["generics"]["params"] if not p.get("const")]
         if a["item"] == "struct":
@@ -253,6 +259,19 @@ def generate():
         idx = add_rule(r["name"], fam or r["name"], r["params"], r["res"], r["src"], r["tgt"], rust)
         if fam:
             base_by_family[fam] = r
+    # construction rules: the std handle a wrapper is built from -> the wrapper (From impls).  A wrapper that is Send/Sync where its handle
+    # is not has gained a marker before any erasure takes place.
+    for name, std, wrapper, rs, rt_ in (("Arc<T> -> CArc<T>", "std::Arc", "CArc", "std::sync::Arc<{T}>", "CArc<{T}>"),
+                                       ("Arc<T> -> CArcSome<T>", "std::Arc", "CArcSome", "std::sync::Arc<{T}>", "CArcSome<{T}>"),
+                                       ("Box<T> -> CBox<T>", "std::Box", "CBox", "Box<{T}>", "CBox<'static, {T}>"),
+                                       ("Box<[T]> -> CSliceBox<T>", "std::BoxSlice", "CSliceBox", "Box<[{T}]>", "CSliceBox<'static, {T}>"),
+                                       ("Vec<T> -> CVec<T>", "std::Vec", "CVec", "Vec<{T}>", "cglue::vec::CVec<{T}>")):
+        if wrapper not in cx.adts:
+            raise TranslateError("wrapper type %s not found" % wrapper)
+        coq_rules.append("mkrule %s 1 [] [] (TAdt %s [TParam 0]) (TAdt %s [TParam 0])" % (coq_string(name), coq_string(std), coq_string(wrapper)))
+        meta.append({"name": name, "family": "construct", "nparams": 1, "opaquable": [], "bounds": {"T": [False, False, False]},
+                     "rust": {"raw": True, "src": rs, "tgt": rt_}})
+        rules_json.append({"params": ["T"], "raw": True, "src": rs, "tgt": rt_})
     # instantiations of compositional rules at each base rule (and objects of the sample trait): T := base.src, T::OpaqueTarget := base.tgt
     comp = [r for r in rules if any(r["res"][p][2] for p in r["params"])]
     for c in comp:
@@ -431,6 +450,13 @@ def write_probe(cx_rules_meta, out_dir):
     rows = []
     for idx, (m, rj) in enumerate(zip(meta, rules_json)):
         if rj is None or m["rust"] is None:
+            continue
+        if rj.get("raw"):
+            for pc, pty in PAYLOADS.items():
+                s_ty, t_ty = rj["src"].replace("{T}", pty), rj["tgt"].replace("{T}", pty)
+                src.append('    println!("%d %d %d 1 {} {} {} {}", P::<%s>::SEND as u8, P::<%s>::SYNC as u8, P::<%s>::SEND as u8, P::<%s>::SYNC as u8);'
+                           % (idx, pc[0], pc[1], s_ty, s_ty, t_ty, t_ty))
+                rows.append({"rule": idx, "payload": pc, "src": s_ty, "tgt": t_ty})
             continue
         if m["nparams"] >= 1 and m["family"] not in BASE_FAMILIES.values():
             continue
